@@ -227,6 +227,16 @@ def main(argv=None):
         return 2
 
     total.failures.extend(fixed_regressions)
+    # a finding identified by call site + statement kind (bucket) rather than by one input: reported as KNOWN-FINDING, not VIOLATION
+    site_kf = {kf["suppress_bucket"]: kf for kf in load_known()
+               if kf["property"] == pid and kf.get("status") == "open" and kf.get("suppress_bucket")}
+    kept = []
+    for fl in total.failures:
+        if fl["bucket"] in site_kf:
+            total.count("known_site_hits:" + fl["bucket"])
+        else:
+            kept.append(fl)
+    total.failures = kept
     # ---- violations: one per bucket ----
     buckets = {}
     for fl in total.failures:
